@@ -4,7 +4,7 @@ from ref import pools, musig, schnorr
 
 ID = "C12"
 LEVEL = "exploration"
-CONFIGS = {"quick": ["san"], "thorough": ["san", "san_nv", "mx_i64", "mx_i128s"]}
+CONFIGS = {"quick": ["san", "mx_i64"], "thorough": ["san", "san_nv", "mx_i64", "mx_i128s"]}
 EXTRA_BUILDS = ["sg13", "sg199"]
 RULE = ("complete signing sessions with 1..16 signers over key multisets (distinct, first key repeated, all equal, sorted or not), 0..6 plain / x-only "
         "tweaks (incl. tweaks >= n and the tweak that cancels the aggregate key), every subset of optional nonce-generation arguments, the counter entry "
@@ -367,7 +367,7 @@ def wl_counters(ctx, config):
 def run(ctx):
     from vlib import smallgroup
     smallgroup.run(ctx, "misc", {"musig_partial_sig_reenc": "accepted"})
-    for config in ctx.configs:
+    for config in ctx.cfgs():
         for it in range(ctx.n(400, 10000)):
             session(ctx, config, ctx.rng, it)
         wl_parsers(ctx, config)
